@@ -160,6 +160,21 @@ pub fn directed() -> Vec<(&'static str, String)> {
         v.push((name, format!("{}1{}", rep(open, k), rep(close, k))));
     }
     v.push(("sum-250-terms", format!("1{}", rep(" + 1", 250))));
+    // long runs of what the lexer skips (it used to call itself for each blank and each comment: §13)
+    v.push(("blanks-300k", format!("{}1", rep(" ", 300_000))));
+    v.push(("newlines-300k", format!("{}1", rep("\n", 300_000))));
+    v.push(("tabs-and-crlf-200k", format!("1 +{}2", rep("\t\r\n", 200_000))));
+    v.push(("comment-lines-100k", format!("{}1", rep("// niets\n", 100_000))));
+    v.push(("empty-comment-lines-200k", format!("{}1", rep("//\n", 200_000))));
+    v.push(("blanks-then-eof-300k", rep(" ", 300_000)));
+    v.push(("wide-blanks-100k", format!("{}1", rep("\u{2028}\u{200e}", 100_000))));
+    // recursion that never ends and takes no stack slot: only the list of frames grows (no instruction budget for
+    // these — they must end in the interpreter's own error, §13)
+    v.push(("endless-recursion:no-slots", "functie f() { f() } f()".into()));
+    v.push(("endless-recursion:no-slots-literal", "stel f = functie() { f() }; f()".into()));
+    v.push(("endless-recursion:no-slots-mutual", "stel b = 0; functie a() { b() } b = functie() { a() }; a()".into()));
+    v.push(("endless-recursion:no-slots-in-function", "functie buiten() { functie f() { f() } f() } buiten()".into()));
+    v.push(("endless-recursion:no-slots-value-used", "functie f() { 1 + f() } f()".into()));
     for (name, k) in [("deep-parens-2k", 2_000usize), ("deep-parens-10k", 10_000)] {
         v.push((name, format!("{}1{}", rep("(", k), rep(")", k))));
     }
@@ -296,7 +311,7 @@ impl C05 {
         let mut c = Command::new("bash");
         // soft limit below the hard one: SIGXCPU (24) at the soft limit is the verdict; at the hard limit the kernel
         // sends SIGKILL, which says nothing
-        c.arg("-c").arg(format!("ulimit -S -t {}; ulimit -H -t {}; exec timeout {} \"$0\" \"$@\"", cpu_s, cpu_s + 10, cpu_s * 40)).arg(bin);
+        c.arg("-c").arg(format!("ulimit -v 3000000; ulimit -S -t {}; ulimit -H -t {}; exec timeout {} \"$0\" \"$@\"", cpu_s, cpu_s + 10, cpu_s * 40)).arg(bin);
         for a in args {
             c.arg(a);
         }
@@ -316,6 +331,10 @@ impl C05 {
             Some("watchdog".to_string())
         } else if err.contains("panicked") {
             Some("panic".to_string())
+        } else if err.contains("memory allocation of") {
+            Some("abort:alloc".to_string())
+        } else if err.contains("has overflowed its stack") {
+            Some("abort:stack-overflow".to_string())
         } else {
             Some(format!("exit:{:?}:signal:{:?}", code, o.status.signal()))
         }
@@ -323,30 +342,41 @@ impl C05 {
 
     /// the shipped binary: file mode and the interactive prompt on stdin
     fn binary_case(&self, which: u64, quick: bool, st: &mut Stats) {
-        let bin_s = format!("{}/harness/target-repo/release/nederlang", crate::sup::root());
-                let bin = bin_s.as_str();
+        self.binary_case_with("release", which, quick, st);
+        if which < 2 {
+            // the dev-profile binary (what `cargo run` gives): no tail calls turned into loops, bigger frames, debug
+            // assertions and overflow checks
+            self.binary_case_with("debug", which, quick, st);
+        }
+    }
+
+    fn binary_case_with(&self, profile: &str, which: u64, quick: bool, st: &mut Stats) {
+        let bin_s = format!("{}/harness/target-repo/{}/nederlang", crate::sup::root(), profile);
+        let bin = bin_s.as_str();
         if !std::path::Path::new(bin).exists() {
             st.inconclusive(format!("{} not built", bin));
             return;
         }
+        let dev = profile == "debug";
+        let tag = if dev { "dev-" } else { "" };
         let dir = crate::sup::scratch_dir();
-        let small: Vec<(&'static str, String)> = self.directed.iter().cloned().filter(|(_, t)| t.len() < 4096 && !t.contains("zolang ja") && !t.contains("f(n + 1)") && !t.contains("g(n + 1)") && !t.contains("200000") && !t.contains("70000")).collect();
+        let small: Vec<(&'static str, String)> = self.directed.iter().cloned().filter(|(n, t)| (t.len() < 4096 || n.contains("blanks") || n.contains("lines-")) && !t.contains("zolang ja") && !t.contains("f(n + 1)") && !t.contains("g(n + 1)") && !t.contains("200000") && !t.contains("70000")).filter(|(n, _)| !(dev && n.starts_with("long-run:"))).collect();
         match which {
             0 => {
                 // nederlang <file>
                 for (name, text) in &small {
                     let p = format!("{}/c05-{}-{}.nl", dir, std::process::id(), name);
                     let _ = std::fs::write(&p, text);
-                    let out = Self::limited(bin, &[&p], if name.starts_with("long-run:") { 60 } else { 5 }).stdin(Stdio::null()).output();
+                    let out = Self::limited(bin, &[&p], if dev || name.starts_with("long-run:") { 60 } else { 5 }).stdin(Stdio::null()).output();
                     let _ = std::fs::remove_file(&p);
                     st.evaluations += 1;
-                    st.count("binary:file-runs");
+                    st.count(&format!("binary:{}file-runs", tag));
                     if let Ok(o) = out {
                         let err = String::from_utf8_lossy(&o.stderr);
                         match Self::ending(&o) {
                             None => {}
                             Some(how) if how == "watchdog" => st.inconclusive(format!("`nederlang <file>` ({}) did not finish within the wall-clock watchdog without using 5 s of CPU time", name)),
-                            Some(how) => st.violation(&format!("binary-file:{}:{}", name, how), format!("`nederlang <file>` ended with {:?}; stderr: {}", o.status, crate::obs::clip(&err, 300)), text),
+                            Some(how) => st.violation(&format!("binary-{}file:{}:{}", tag, name, how), format!("`nederlang <file>` ended with {:?}; stderr: {}", o.status, crate::obs::clip(&err, 300)), text),
                         }
                     }
                 }
@@ -358,7 +388,7 @@ impl C05 {
                     if text.contains('\n') || (quick && k % 4 != 0) {
                         continue;
                     }
-                    let child = Self::limited(bin, &[], if name.starts_with("long-run:") { 60 } else { 5 }).stdin(Stdio::piped()).stdout(Stdio::null()).stderr(Stdio::piped()).spawn();
+                    let child = Self::limited(bin, &[], if dev || name.starts_with("long-run:") { 60 } else { 5 }).stdin(Stdio::piped()).stdout(Stdio::null()).stderr(Stdio::piped()).spawn();
                     let mut child = match child {
                         Ok(c) => c,
                         Err(_) => continue,
@@ -368,13 +398,13 @@ impl C05 {
                         let _ = writeln!(i, "1 + 1");
                     }
                     st.evaluations += 1;
-                    st.count("binary:prompt-runs");
+                    st.count(&format!("binary:{}prompt-runs", tag));
                     if let Ok(o) = child.wait_with_output() {
                         let err = String::from_utf8_lossy(&o.stderr);
                         match Self::ending(&o) {
                             None => {}
                             Some(how) if how == "watchdog" => st.inconclusive("the prompt did not finish within the wall-clock watchdog without using 5 s of CPU time".to_string()),
-                            Some(how) => st.violation(&format!("binary-prompt:{}", how), format!("the prompt ended with {:?} after this line and end of input; stderr: {}", o.status, crate::obs::clip(&err, 300)), text),
+                            Some(how) => st.violation(&format!("binary-{}prompt:{}", tag, how), format!("the prompt ended with {:?} after this line and end of input; stderr: {}", o.status, crate::obs::clip(&err, 300)), text),
                         }
                     }
                 }
@@ -428,7 +458,7 @@ impl Check for C05 {
         // exponential growth — `x = [x, x]` or `s = s + s` in a loop that an edit made endless — just as running
         // forever is the fate of `zolang ja { }`: the property excepts what the program itself spells out. Without a
         // loop or a function in the input, memory exhaustion is the interpreter's doing and stays a finding.
-        if how.starts_with("abort:alloc") {
+        if how.starts_with("abort:alloc") && name != "directed" {
             let (_, inputs) = self.inputs(ctx, idx);
             if inputs.iter().any(|t| t.contains("zolang") || t.contains("functie")) {
                 return None;
@@ -455,6 +485,10 @@ impl Check for C05 {
         }
         if name == "scale" {
             cfg.budget = Some(5_000_000);
+        }
+        if name == "directed" && self.directed[i as usize].0.starts_with("endless-recursion:") && ctx.flavour != Flavour::Miri {
+            // the interpreter's own limit has to end these, not the hook's budget (the worker's address space is capped)
+            cfg.budget = None;
         }
         st.count(&format!("inputs:{}", name));
         let label = if name == "directed" { format!("{}:", self.directed[i as usize].0) } else { String::new() };
